@@ -1155,6 +1155,9 @@ class WcParse(Generic[AnyStr]):
             elif c == '#':
                 # Escape # so that literal text can never look like our internal `(?#)` marker
                 value = '\\' + c
+            elif c == '^' and len(result) == 1:
+                # A caret that ends up first because the ranges before it were dropped must not read as a negation
+                value = '\\' + c
             else:
                 # Anything else
                 value = c
